@@ -1,5 +1,6 @@
 """C09 — packaging variants of a program are semantically transparent (metamorphic)."""
 import json
+import re
 import random
 
 from vlib import core, pipeline as P, diffrun
@@ -49,6 +50,11 @@ def include_variant(name, prog, kind, rng, uniq, attrs=(), positions=None):
     return v
 
 
+def tag_plain(text, spelling):
+    """name the built-in provider explicitly on every plain relation: `#[ds(ascent::rel)] relation r(..)` is what `relation r(..)` means"""
+    return re.sub(r'(?m)^(\s*)relation ', r'\1#[ds(%s)] relation ' % spelling, text)
+
+
 def make_variants(rng, prog, input_rels, cname, init_rel, init_rows, bogus_rows):
     vs = []
 
@@ -75,6 +81,9 @@ def make_variants(rng, prog, input_rels, cname, init_rel, init_rows, bogus_rows)
     add(E.Variant('both', prog, 'ascent_par', extra_attrs=['measure_rule_times', 'generate_run_timeout']), 'both attributes, ascent_par!')
     add(E.Variant('sig', prog, 'ascent', struct_sig='pub(crate) struct MyProg;', prog_ty='MyProg'), 'named struct with visibility')
     add(E.Variant('sigattr', prog, 'ascent_par', struct_sig='#[doc = "a program"] pub struct Documented;', prog_ty='Documented'), 'struct with outer attribute')
+    # the built-in provider named explicitly, in both spellings (the second is the one the repository's own tests use)
+    add(E.Variant('dsrel', prog, 'ascent', body_text=tag_plain(prog.text(indent='      '), '::ascent::rel')), '#[ds(::ascent::rel)] on every plain relation (ascent!)')
+    add(E.Variant('dsrelpar', prog, 'ascent_par', body_text=tag_plain(prog.text(indent='      '), 'ascent::rel')), '#[ds(ascent::rel)] on every plain relation (ascent_par!)')
     if init_rel is not None:
         rel = prog.rel(init_rel)
         # relation r(..) = e  starts from exactly the tuples of e
@@ -90,6 +99,9 @@ def make_variants(rng, prog, input_rels, cname, init_rel, init_rows, bogus_rows)
             v = E.Variant(nm, p2, kind, body_text=p2.text(init_texts={init_rel: vec_lit(rel, bogus_rows, par=par)}, indent='      '))
             v.assign_rel, v.assign_count = init_rel, len(bogus_rows)
             add(v, 'relation %s(..) = bogus rows; the caller assigns the real rows before run() (%s)' % (init_rel, kind), inputs_include_init=True)
+            v = E.Variant('ds' + nm, p2, kind, body_text=tag_plain(p2.text(init_texts={init_rel: vec_lit(rel, bogus_rows, par=par)}, indent='      '), 'ascent::rel'))
+            v.assign_rel, v.assign_count = init_rel, len(bogus_rows)
+            add(v, '#[ds(ascent::rel)] relation %s(..) = bogus rows; the caller assigns the real rows before run() (%s)' % (init_rel, kind), inputs_include_init=True)
         # a later re-declaration wins: the earlier one carries a bogus initialiser
         head, items = p2.lines(init_texts={init_rel: vec_lit(rel, init_rows)})
         bogus = rel.decl(vec_lit(rel, bogus_rows))
